@@ -163,7 +163,7 @@ pub fn describe(text: &str) -> String {
 thread_local! {
     static BASE_FILE: Option<dtr::dig::File> = {
         use crate::digxml::{self, Pin, PinKind};
-        let doc = digxml::render(&[Pin::new(PinKind::In, "A"), Pin::new(PinKind::In, "B"), Pin::new(PinKind::Out, "Q")], &[digxml::TestDesc { label: Some("t".into()), source: "A B\n0 0\n".into(), extra: vec![] }]);
+        let doc = digxml::render(&[Pin::new(PinKind::In, "A"), Pin::new(PinKind::In, "B"), Pin::new(PinKind::Out, "Q")], &[digxml::TestDesc { label: Some("t".into()), source: "A B\n0 0\n".into(), extra: vec![] }, digxml::TestDesc { label: Some("t".into()), source: "A\n1\n".into(), extra: vec![] }, digxml::TestDesc { label: None, source: "B\n1\n".into(), extra: vec![] }, digxml::TestDesc { label: None, source: "A B\n0 0\n".into(), extra: vec![] }]);
         dtr::dig::File::parse(&doc).ok()
     };
 }
@@ -172,10 +172,16 @@ thread_local! {
 /// `load_test` parses it and attaches the source to the error; the error must be renderable too.
 fn dig_route(text: &str, st: &mut Stats) -> Option<(String, String)> {
     let mut f = BASE_FILE.with(|b| b.clone())?;
-    f.test_cases[0].source = text.to_string();
+    // the file holds four tests, two labelled alike and two without a label (which share the
+    // placeholder name): the text is written into the later one of a pair
+    let which = if text.len() % 2 == 0 { 1 } else { 3 };
+    if f.test_cases.len() != 4 {
+        return None;
+    }
+    f.test_cases[which].source = text.to_string();
     st.witness("text_parsed_as_the_source_of_a_test_of_a_dig_file");
     let t = text.to_string();
-    let r = guard(DEFAULT_BUDGET, move || match f.load_test(0) {
+    let r = guard(DEFAULT_BUDGET, move || match f.load_test(which) {
         Err(dtr::errors::LoadTestError::ParseError(e)) => {
             let spans: Vec<(usize, usize)> = e.at.iter().map(|s| (s.start, s.end)).collect();
             for &(a, b) in &spans {
@@ -186,7 +192,9 @@ fn dig_route(text: &str, st: &mut Stats) -> Option<(String, String)> {
             let rep = miette::Report::new(e);
             let mut out = String::new();
             let h = miette::GraphicalReportHandler::new_themed(miette::GraphicalTheme::unicode_nocolor());
-            let _ = h.render_report(&mut out, rep.as_ref());
+            if h.render_report(&mut out, rep.as_ref()).is_err() {
+                return Some(format!("the error returned by load_test cannot be rendered against the text it was loaded from (rendering: {:?})", out.chars().take(300).collect::<String>()));
+            }
             None
         }
         _ => None,
@@ -453,6 +461,18 @@ pub fn beyond_small_scope() -> Vec<String> {
         }
         out.push(format!("A B\n{lit} 0\n"));
         out.push(format!("A B\nbits({lit}, 1) 0\n"));
+    }
+    // (h) literal-only expressions that cannot be evaluated, in every place an expression may stand
+    for e in ["1/0", "8/(2-2)", "1 + 8 % !5", "7 % 0", "(0-1)/(1-1)", "1 << 64 / 0", "ite(1, 2, 3/0)", "ite(1/0, 2, 3)", "random(0)", "signExt(1/0, 1)", "-(1/0)", "~(5%0)"] {
+        out.push(format!("A B\n({e}) 0\n"));
+        out.push(format!("A B\n0 ({e})\n"));
+        out.push(format!("A B\nbits(2, {e})\n"));
+        out.push(format!("A B\nlet x = {e};\n0 0\n"));
+        out.push(format!("A B\nloop(i, {e})\n0 0\nend loop\n"));
+        out.push(format!("A B\nrepeat({e}) 0 0\n"));
+        out.push(format!("A B\nwhile({e})\n0 0\nend while\n"));
+        out.push(format!("A B\ndeclare V = {e};\n0 0\n"));
+        out.push(format!("A B\nloop(i,2)\nrepeat(2) ({e}) (i)\nend loop\n"));
     }
     // (g) a header that is not followed by a line break, with carriage returns around it
     for h in ["A B", "A B\r", "\r\nA B", "\nA B", "A\rB", "A B \r", " A B", "A B\t", "A B # c", "\r\n\r\nA B\r", "A B\r\r", "A", "A\r"] {
